@@ -15,7 +15,8 @@ MKINDS = ['non-trashinfo-file', 'non-trashinfo-dir', 'empty', 'truncated',
           'dangling-link-info', 'link-to-dir-info', 'loop-link-info',
           'link-to-good-info', 'long-name-payload-without-info',
           'long-name-payload-without-info', 'payload-is-fifo',
-          'unreadable-info', 'unremovable-payload']
+          'unreadable-info', 'unremovable-payload', 'other-case-suffix',
+          'other-case-suffix']
 CMDS = ['list', 'restore-list', 'restore-each', 'rm', 'empty-days', 'empty']
 
 
@@ -36,6 +37,9 @@ def config(tier):
                 'world with and without M; non-trivial = |G|>=2 and |M|>=1',
         'assumptions': ['listdir permutation by the shim models readdir order'],
     }
+
+
+stem_of = {}
 
 
 def malformed_nodes(rng, t, kind, j, index, same_as=None):
@@ -85,7 +89,11 @@ def malformed_nodes(rng, t, kind, j, index, same_as=None):
                            '2147483648-01-01T00:00:00', '2001-4294967296-01T00:00:00',
                            '0000-00-00T00:00:00', '2001-01-01T24:60:60',
                            '9' * 5000 + '-01-01T00:00:00', '-001-01-01T00:00:00',
-                           '2001-01-01T00:00:00.5', '２００１-01-01T00:00:00']))}, pay]
+                           '2001-01-01T00:00:00.5', '２００１-01-01T00:00:00',
+                           # a zone suffix (other implementations): not the
+                           # spec's format, an undated entry
+                           '2001-01-01T00:00:00Z', '2001-01-01T00:00:00+0200',
+                           '2001-01-01T00:00:00+02:00', '2001-01-01T00:00:00-0000']))}, pay]
     if kind == 'info-without-payload':
         return [{'p': ip, 't': 'f', 'c': good}]
     if kind == 'payload-without-info':
@@ -124,6 +132,15 @@ def malformed_nodes(rng, t, kind, j, index, same_as=None):
                 {'p': pp, 't': 'd', 'm': 0o755},
                 {'p': pp + '/locked', 't': 'd', 'm': 0o000},
                 {'p': pp + '/locked/inside', 't': 'f', 'c': 'x'}]
+    if kind == 'other-case-suffix':
+        # NOT a .trashinfo (the suffix is case-sensitive): a file in info/
+        # whose stem is that of a well-formed entry, with an old date and a
+        # catch-all looking Path
+        stem = same_as if isinstance(same_as, str) and '/' not in same_as else nm
+        return [{'p': '%s/info/%s%s' % (base, stem_of.get('name', nm),
+                                        rng.choice(['.TRASHINFO', '.Trashinfo', '.trashINFO'])),
+                 't': 'f',
+                 'c': '[Trash Info]\nPath=elsewhere/g-decoy\nDeletionDate=1999-01-01T00:00:00\n'}]
     if kind == 'payload-is-fifo':
         return [{'p': ip, 't': 'f', 'c': good}, {'p': pp, 't': 'p'}]
     if kind == 'path-empty':
@@ -152,6 +169,9 @@ def gen_case(rng, index, tier):
             kind_l = kind + '-same-path'
         else:
             kind_l = kind
+        stem_of.clear()
+        if mine:
+            stem_of['name'] = rng.choice(mine)['name']
         L.add(malformed_nodes(rng, t, kind, j, index, same_as=same))
         mk.append(kind_l)
     case = L.desc()
